@@ -26,8 +26,8 @@ MODULE = "modem/Constellation.tla"
 TRACE = "modem/Trace_Constellation.tla"
 TOL = 1e-9
 DEVS = ["SetPhaseOffsetDropsGray", "QamGrayIndexInverted", "QamAcceptsOne", "NoNormalisation", "ModulateWraps",
-        "DetectRealOnly", "GrayTwice", "BerNotPerBit"]
-INVARIANTS = ["TypeOK", "Rejects", "TableOK", "RoundTrip", "ModulateLaw", "MLLaw", "Lemmas"]
+        "DetectRealOnly", "GrayTwice", "BerNotPerBit", "ModulateReusesBuffer"]
+INVARIANTS = ["TypeOK", "Rejects", "TableOK", "RoundTrip", "ModulateLaw", "EarlierResultsUnchanged", "MLLaw", "Lemmas"]
 RADII = [0.5, 1.0, 3.0]           # PSK sample radius numbers 1..3 (ConstellationOps: the radius does not matter)
 
 QAM_ORDERS = [4 ** k for k in range(1, 7)]            # 4 .. 4096
@@ -215,10 +215,63 @@ def record_history(spec):
     trace["events"].append(ev)
     tables = [tb]
 
+    def identical(x, snap):
+        return isinstance(x, np.ndarray) and x.shape == snap.shape and x.dtype == snap.dtype and np.array_equal(x, snap)
+
+    def invoke(fn, *args):
+        """the call discipline around every public call: arguments are inputs only, a rejected call changes nothing"""
+        snaps = [(a_, np.array(a_, copy=True)) for a_ in args if isinstance(a_, np.ndarray)]
+        sym = np.array(obj.symbols, copy=True)
+        o, res = outcome(lambda: fn(*args))
+        argsok = all(identical(a_, sn) for a_, sn in snaps)
+        frameok = o == "ok" or identical(np.asarray(obj.symbols), sym)
+        return o, res, bool(argsok), bool(frameok)
+
     def calls(tb):
         if not tb.tabok or not spec.get("calls", True) or M < 1:
             return
         nsamp = spec.get("nsamp", 200)
+        held = []          # (event number, result object, "mod" | "lab"): results the caller keeps by reference
+
+        def keep(res, kind):
+            if isinstance(res, np.ndarray) and res.size:
+                held.append((len(trace["events"]), res, kind))
+
+        def recheck():
+            """results stay results: read every held result object again"""
+            for k, res, kind in held:
+                if kind == "mod":
+                    now, okn = tb.to_coords(np.asarray(res).reshape(-1))
+                else:
+                    now, okn = [int(v) for v in np.asarray(res).reshape(-1)], True
+                trace["events"].append({"op": "recheck", "of": k, "now": now, "nowok": bool(okn)})
+
+        def mod_event(idx, lay, arg=None):
+            arg = as_layout(idx, lay) if arg is None else arg
+            o, res, argsok, frameok = invoke(obj.modulate, arg)
+            shp = np.shape(idx)
+            e = {"op": "mod", "idx": [int(v) for v in np.asarray(idx).reshape(-1)], "out": o, "pts": [], "ptsok": False, "shapeok": False,
+                 "shape": list(shp), "layout": lay, "argsok": argsok, "frameok": frameok, "ownok": True}
+            if o == "ok":
+                e["pts"], e["ptsok"] = tb.to_coords(np.asarray(res).reshape(-1))
+                e["shapeok"] = tuple(np.shape(res)) == tuple(shp)
+                e["ownok"] = not (isinstance(res, np.ndarray) and np.shares_memory(res, obj.symbols))
+            trace["events"].append(e)
+            if o == "ok":
+                keep(res, "mod")
+            return res
+
+        def lab_event(op, fn, arg, n, shp, lay, **fields):
+            o, res, argsok, frameok = invoke(fn, arg)
+            e = dict({"op": op, "lab": [-2] * n, "shapeok": False, "shape": list(shp), "layout": lay, "argsok": argsok and frameok}, **fields)
+            if o == "ok" and np.size(res) == n:
+                e["lab"] = [int(v) for v in np.asarray(res).reshape(-1)]
+                e["shapeok"] = tuple(np.shape(res)) == tuple(shp)
+            trace["events"].append(e)
+            if o == "ok" and np.size(res) == n:
+                keep(res, "lab")
+            return res
+
         # modulate: index arrays of several shapes AND memory layouts, some reaching M and beyond
         for si, (shp, lay) in enumerate(SHAPES):
             n = int(np.prod(shp))
@@ -226,31 +279,28 @@ def record_history(spec):
             if si in (2, 4, 11) and n:
                 flat = idx.reshape(-1)
                 flat[rng.randint(0, n)] = M + (si // 4) * rng.randint(0, 3)     # M, or a little above
-            arg = int(idx) if shp == () and lay == "C" else as_layout(idx, lay)
-            o, res = outcome(lambda: obj.modulate(arg))
-            e = {"op": "mod", "idx": [int(v) for v in idx.reshape(-1)], "out": o, "pts": [], "ptsok": False,
-                 "shapeok": False, "shape": list(shp), "layout": lay}
-            if o == "ok":
-                e["pts"], e["ptsok"] = tb.to_coords(logical(res))
-                e["shapeok"] = tuple(np.shape(res)) == tuple(shp)
-            trace["events"].append(e)
+            mod_event(idx, lay, arg=int(idx) if shp == () and lay == "C" else None)
+        # two same-shape modulate calls, then the FIRST result (held by reference, not copied) is demodulated
+        for shp in ((5,), (2, 3)):
+            ia, ib = np.asarray(rng.randint(0, M, size=shp)), np.asarray(rng.randint(0, M, size=shp))
+            ra = mod_event(ia, "C")
+            mod_event(ib, "C")
+            if isinstance(ra, np.ndarray) and ra.shape == tuple(shp):
+                lab_event("roundtrip", obj.demodulate, ra, int(np.prod(shp)), shp, "C", idx=[int(v) for v in ia.reshape(-1)])
         # demodulate(modulate(idx)) for index arrays of any shape; the modulated array is handed over in
         # the given memory layout (a transposed / Fortran-ordered / strided received array is still the same array)
         for shp, lay in SHAPES[1:]:
             idx = np.asarray(rng.randint(0, M, size=shp))
-            o, res = outcome(lambda: obj.demodulate(as_layout(np.asarray(obj.modulate(as_layout(idx, lay))).astype(complex), lay, fill=7 + 7j)))
-            e = {"op": "roundtrip", "idx": [int(v) for v in idx.reshape(-1)], "lab": [], "shapeok": False, "shape": list(shp), "layout": lay}
-            if o == "ok":
-                e["lab"] = [int(v) for v in logical(res)]
-                e["shapeok"] = tuple(np.shape(res)) == tuple(shp) and len(e["lab"]) == len(e["idx"])
-            if len(e["lab"]) != len(e["idx"]):
-                e["lab"] = [-2] * len(e["idx"])
-            trace["events"].append(e)
+            o, tx = outcome(lambda: np.asarray(obj.modulate(as_layout(idx, lay))).astype(complex))
+            rx = as_layout(tx, lay, fill=7 + 7j) if o == "ok" and np.shape(tx) == tuple(shp) else np.zeros(shp, dtype=complex)
+            lab_event("roundtrip", obj.demodulate, rx, int(np.prod(shp)), shp, lay, idx=[int(v) for v in idx.reshape(-1)])
+        recheck()
         # all labels once (flat)
         allidx = np.arange(M) if M <= 1024 else rng.permutation(M)[:1024]
         o, res = outcome(lambda: demod_chunked(obj, np.asarray(obj.modulate(allidx)).astype(complex)))
         lab = [int(v) for v in res] if o == "ok" and len(res) == len(allidx) else [-2] * len(allidx)
-        trace["events"].append({"op": "roundtrip", "idx": [int(v) for v in allidx], "lab": lab, "shapeok": o == "ok", "shape": [len(allidx)]})
+        trace["events"].append({"op": "roundtrip", "idx": [int(v) for v in allidx], "lab": lab, "shapeok": o == "ok", "shape": [len(allidx)],
+                                "argsok": True})
         # demodulate noisy samples (python-chosen, on the exact grid): a transmitted point plus
         # Gaussian noise of about half the decision distance, and uniformly random samples
         for shp, lay in (((nsamp,), "C"), ((max(1, nsamp // 8), 2, 2), "C"), ((4, 6), "F"), ((6, 4), "T"), ((2, 3, 4), "F"),
@@ -270,13 +320,8 @@ def record_history(spec):
                 if sk == "BPSK":
                     b = np.round(rng.randn(n) * 2 * d).astype(np.int64)
             z = as_layout(np.asarray(tb.sample(a, b, d), dtype=complex).reshape(shp), lay, fill=7 + 7j)
-            o, res = outcome(lambda: obj.demodulate(z))
-            e = {"op": "demod", "a": [int(v) for v in a], "b": [int(v) for v in b], "lab": [-2] * n, "shapeok": False,
-                 "shape": list(shp), "layout": lay}
-            if o == "ok" and np.size(res) == n:
-                e["lab"] = [int(v) for v in logical(res)]
-                e["shapeok"] = tuple(np.shape(res)) == tuple(shp)
-            trace["events"].append(e)
+            lab_event("demod", obj.demodulate, z, n, shp, lay, a=[int(v) for v in a], b=[int(v) for v in b])
+        recheck()
 
     calls(tb)
     for ph in phases[1:]:
@@ -414,6 +459,7 @@ def model_devs(ctx, wanted):
         "ModulateWraps": (dict(kind="PSK", cards=[4], rowlen=16), "ModulateLaw"),
         "DetectRealOnly": (dict(kind="QAM", cards=[4]), "MLLaw"),
         "GrayTwice": (dict(kind="PSK", cards=[2, 4, 8], rowlen=16), "TableOK"),
+        "ModulateReusesBuffer": (dict(kind="PSK", cards=[4], rowlen=16), "EarlierResultsUnchanged"),
         "BerNotPerBit": (dict(kind="QAM", cards=[16], smode="seeded", nrows=1, rowlen=2), "Lemmas"),
     }
     jobs = [dict(table[d][0], dev=(d,), emit=False) for d in wanted]
